@@ -260,8 +260,10 @@ def run(ctx):
         "Structure of the quote: the cost stored for a position is goal.estimate(activity move) + the route-level estimate, which is threaded unchanged "
         "from eval_job_insertion_in_route down to every leg, carried into the success and accumulated by addition for multi jobs; Goal::estimate yields one "
         "component per layer in layer order (Q1). Estimate and fitness use the same measure: Distance/Duration objectives estimate with the TransportCost "
-        "method that also feeds the cached total their fitness reads; single-closure objectives evaluate the same closure in both methods (Q2).")
-    ctx.not_decided = "numeric equality of quote and objective change, signs, objectives with two independent closures (FleetUsage, WorkBalance)."
+        "method that also feeds the cached total their fitness reads; single-closure objectives evaluate the same closure in both methods (Q2). Sign / unit "
+        "agreement by abstract interpretation (S1): assigning a job is quoted as -estimator(job) while the fitness sums +estimator(job); inserting into an unused "
+        "tour is quoted as exactly the +-1 by which the tour-count value changes, into a used tour as 0.")
+    ctx.not_decided = "numeric equality of quote and objective change; objectives with two independent closures beyond the tour count (arrival time, WorkBalance)."
     ctx.run("C20-Q1", "quote = route-level estimate + activity-level estimate, threaded to every leg; one component per layer", q1_quote_composition, floor=9)
     ctx.run("C20-S1", "sign/size agreement of quote and objective change: unassigned jobs (−estimator vs +estimator), tour count (±1 per opened tour)", s1_sign_agreement, floor=4)
     ctx.run("C20-Q2", "estimate and fitness use the same measure", q2_same_measure, floor=4)
